@@ -380,6 +380,7 @@ def raw_argument(ctx: Ctx):
     m = ctx.repo.lookup(cube, "augment_response")
     body = SUMMARIZER.summarize(m.node)
     raw_subs = [u(n)[:60] for n in ast.walk(body) if isinstance(n, ast.Subscript) and isinstance(n.value, ast.Name) and n.value.id == "summary_cube_resp"]
+    _augment_normaliser_table(ctx, m)
     ctx.ob("raw-response.augment", "cube.py::Cube.augment_response", raw_subs or "summary response is normalised (Cube(...)._cube_response) before any subscript", "the summary response handed over by CubeSet is raw: it must be normalised before it is subscripted", not raw_subs, "JSON text, dict and {'value': ...} envelope must give the same results")
 
 
@@ -589,3 +590,47 @@ def uninitialised_buffers(ctx: Ctx):
         ctx.violated("uninitialised-memory", where, t, "a buffer initialised with the value the unselected cells are to have (np.full(.., np.nan), np.zeros)", "cells outside the mask report whatever the recycled memory held: different values for different access schedules")
     if not hits:
         ctx.held("uninitialised-memory", "package: every ufunc call with out= and where=", f"{n} members, no masked write into an np.empty buffer", "", "controls recognised")
+
+
+def _augment_normaliser_table(ctx: Ctx, m):
+    """How `augment_response` turns the raw summary response into a dict: through the shared normaliser
+    (`Cube(x)._cube_response`), or by an expression of its own - which is then evaluated over the four forms a response
+    arrives in (dict, {'value': ..} envelope, JSON text, JSON text of an envelope): each must give the bare response."""
+    import json as _json
+
+    from ..dectab import DTop, ModelInterp, Raises
+
+    where = "cube.py::Cube.augment_response [normalisation of the summary response]"
+    param = next((p_ for p_ in m.params if p_ not in ("self", "cls")), None)
+    rebinds = [n for n in ast.walk(m.node) if isinstance(n, ast.Assign) and len(n.targets) == 1 and isinstance(n.targets[0], ast.Name) and n.targets[0].id == param]
+    if param is None or len(rebinds) != 1:
+        ctx.undecided("raw-response.augment.forms", where, f"{len(rebinds)} re-bindings of the parameter", "one normalising re-binding")
+        return
+    e = rebinds[0].value
+    if u(e) == f"Cube({param})._cube_response":
+        ctx.held("raw-response.augment.forms", where, u(e), "the shared normaliser")
+        return
+    bare = {"result": {"counts": [1, 2]}}
+    forms = {"dict": bare, "envelope": {"value": bare}, "JSON text": _json.dumps(bare), "JSON text of an envelope": _json.dumps({"value": bare})}
+    bad = []
+    for label, raw in forms.items():
+        class _I(ModelInterp):
+            def _call(self, c, it):
+                if u(c.func) == "json.loads" and len(c.args) == 1:
+                    v = self.ev(c.args[0])
+                    if not isinstance(v, str):
+                        raise Raises("TypeError", "json.loads of a non-string")
+                    return _json.loads(v)
+                return super()._call(c, it)
+
+        try:
+            got = _I(lambda x: (_ for _ in ()).throw(KeyError()), {param: raw}).ev(e)
+        except Raises as r:
+            bad.append(f"{label}: raises {r.etype}")
+            continue
+        except DTop as t_:
+            ctx.undecided("raw-response.augment.forms", where, "DECTAB: " + str(t_), "each form of the response gives the bare dict")
+            return
+        if got != bare:
+            bad.append(f"{label}: not unwrapped / parsed ({str(got)[:50]})")
+    ctx.ob("raw-response.augment.forms", where, bad or "4 forms give the bare response", "dict, envelope, JSON text and JSON text of an envelope all give the bare response", not bad, "the forms of one response must give the same results; no read fails")
